@@ -119,7 +119,8 @@ Section Total.
   Lemma collect_scalars_safe code xs s :
     Forall (fun x => present x /\ tree_ok g x) xs -> safe (collect_scalars code xs s).
   Proof.
-    intros H. unfold collect_scalars. apply each_safe. intros x Hx s' acc.
+    intros H. unfold collect_scalars. apply bind_safe; [|intros s' acc _; apply safe_go].
+    apply each_safe. intros x Hx s' acc.
     rewrite Forall_forall in H. destruct (H x Hx) as [Hp _].
     apply with_type_safe; [exact Hp|]. intros t _. destruct t; apply safe_go.
   Qed.
@@ -134,7 +135,8 @@ Section Total.
 
   Lemma collect_pairs_safe cs kvs s : entries_ok g kvs -> safe (collect_pairs g cs kvs s).
   Proof.
-    intros H. unfold collect_pairs. apply each_safe. intros e He s' acc.
+    intros H. unfold collect_pairs. apply bind_safe; [|intros s' acc _; apply safe_go].
+    apply each_safe. intros e He s' acc.
     destruct (entries_ok_in _ _ _ H He) as [H1 H2].
     apply check_entry_safe; [exact H1 | exact H2 |]. intros P1 P2.
     apply with_type_safe; [exact P1|]. intros tk _. destruct tk; try apply safe_go.
@@ -571,7 +573,8 @@ Section Reported.
 
   Lemma collect_scalars_reports code xs s : reports (collect_scalars code xs s).
   Proof.
-    unfold collect_scalars. apply each_reports. intros x s' acc. apply with_type_reports. intros t.
+    unfold collect_scalars. apply bind_reports; [|intros s' acc; apply reports_go].
+    apply each_reports. intros x s' acc. apply with_type_reports. intros t.
     destruct t; apply reports_go.
   Qed.
 
@@ -583,7 +586,8 @@ Section Reported.
 
   Lemma collect_pairs_reports cs kvs s : reports (collect_pairs g cs kvs s).
   Proof.
-    unfold collect_pairs. apply each_reports. intros e s' acc. apply check_entry_reports.
+    unfold collect_pairs. apply bind_reports; [|intros s' acc; apply reports_go].
+    apply each_reports. intros e s' acc. apply check_entry_reports.
     apply with_type_reports. intros tk. destruct tk; try apply reports_go.
     apply with_type_reports. intros tv. destruct tv; apply reports_go.
   Qed.
